@@ -49,6 +49,8 @@ def coll_apply(cont, m, conv=lambda n: n, choice=None):
             cont.remove(choice)
             return choice
         return cont.pop()
+    if name == "popd":
+        return cont.pop(m[1], None)
     if name == "popitem":
         if choice is not None:
             return (choice, cont.pop(choice))
